@@ -63,6 +63,7 @@ X_UAMB = '-U on an option whose yield flag was toggled (undefined)'
 X_WIPE = '--wipe while a recorded -D value is unknown/invalid for the current declarations (undefined: literal replay must fail)'
 X_PAIR = 'structural edit (add/remove) of a member of a yielding pair (undefined when the pairing changes)'
 X_STATE = 'op not applicable in this build-dir state'
+SHRINK_RUNS = 80      # extra in-process history runs a shard may spend on shrinking its (at most 3) failure buckets
 
 
 # ---------------------------------------------------------------------------
@@ -522,6 +523,7 @@ class Outcome:
         self.excluded: T.List[str] = []
         self.commands = 0
         self.lag = 0
+        self.trace: T.List[str] = []
 
 
 def run_history(case: dict, runner: T.Callable[..., T.Any], root: str) -> Outcome:
@@ -535,7 +537,7 @@ def run_history(case: dict, runner: T.Callable[..., T.Any], root: str) -> Outcom
     m = LifeModel(case['init'])
     cache: T.Dict[str, str] = {}
     write_src(src, render_tree(m, None), cache)
-    trace: T.List[str] = []
+    trace = res.trace
 
     def fail(sig: str, msg: str, r: T.Any = None) -> Outcome:
         tail = ''
@@ -739,27 +741,31 @@ def _strategies() -> T.Any:
         d['value'] = value_for(draw, d)
         return d
 
+    def chance(draw: T.Any, num: int, den: int) -> bool:
+        """True with probability ~num/den; the simplest (shrunk / most often generated) outcome is False"""
+        return draw(st.sampled_from([False] * (den - num) + [True] * num))
+
     def init_decls(draw: T.Any) -> dict:
         top: T.Dict[str, dict] = {}
         sp: T.Dict[str, dict] = {}
         top['s1'] = decl_of(draw, 'string')
         sp['s1'] = decl_of(draw, 'string')
-        if draw(st.integers(0, 3)) == 0:
+        if chance(draw, 1, 4):
             sp['s1']['yield'] = True
         for n, t in (('b1', 'boolean'), ('i1', 'integer'), ('c1', 'combo'), ('a1', 'array'), ('f1', 'feature')):
-            if draw(st.integers(0, 3)) != 0:
+            if not chance(draw, 1, 4):
                 top[n] = decl_of(draw, t)
         for n, t in (('c1', 'combo'), ('i2', 'integer'), ('a2', 'array'), ('b2', 'boolean'), ('f2', 'feature')):
-            if draw(st.integers(0, 3)) != 0:
+            if not chance(draw, 1, 4):
                 sp[n] = decl_of(draw, t)
-        if draw(st.integers(0, 4)) != 0:
+        if not chance(draw, 1, 5):
             top['y1'] = decl_of(draw, 'string')
             sp['y1'] = decl_of(draw, 'string')
-            sp['y1']['yield'] = draw(st.integers(0, 4)) != 0
-        if draw(st.integers(0, 2)) != 0:
+            sp['y1']['yield'] = not chance(draw, 1, 5)
+        if not chance(draw, 1, 3):
             top['y2'] = decl_of(draw, 'combo')
             sp['y2'] = decl_of(draw, 'combo')
-            sp['y2']['yield'] = draw(st.integers(0, 4)) != 0
+            sp['y2']['yield'] = not chance(draw, 1, 5)
         projdef = {}
         if draw(st.booleans()):
             projdef['warning_level'] = draw(st.sampled_from(['0', '2', '3']))
@@ -781,7 +787,7 @@ def _strategies() -> T.Any:
         return out
 
     def gen_fail(draw: T.Any, m: LifeModel, o: str) -> T.Optional[dict]:
-        if draw(st.integers(0, 4)) != 0:
+        if not chance(draw, 1, 5):
             return None
         kinds = {'setup': ['error', 'syntax', 'badvalue', 'unknown'], 'reconfigure': ['error', 'syntax', 'badvalue', 'unknown'],
                  'configure': ['syntax', 'badvalue', 'unknown', 'badvalue'], 'setupconf': ['syntax', 'badvalue', 'unknown'],
@@ -844,16 +850,16 @@ def _strategies() -> T.Any:
 
     def gen_U(draw: T.Any, m: LifeModel) -> T.List[str]:
         cands = sorted(k for k in (list(m.over) + [SP + ':' + n for n in m.file[SP]]) if m.is_override(k))
-        if not cands or draw(st.integers(0, 2)) == 0:
+        if not cands or not chance(draw, 2, 3):
             # sometimes aim at a non-override too: it is counted as excluded
-            if draw(st.integers(0, 14)) == 0 and m.file[SP]:
+            if chance(draw, 1, 15) and m.file[SP]:
                 return [SP + ':' + draw(st.sampled_from(list(m.file[SP])))]
             return []
         return draw(st.lists(st.sampled_from(cands), unique=True, min_size=1, max_size=2))
 
     def gen_op(draw: T.Any, m: LifeModel) -> dict:
         if m.state == 'fresh':
-            if draw(st.integers(0, 9)) == 0:
+            if chance(draw, 1, 10):
                 return gen_edit(draw, m)
             op: dict = {'op': 'setup', 'D': gen_D(draw, m, 0, 4)}
             f = gen_fail(draw, m, 'setup')
@@ -861,7 +867,7 @@ def _strategies() -> T.Any:
                 op['fail'] = f
             return op
         if m.state == 'wiped':
-            if draw(st.integers(0, 5)) == 0:
+            if chance(draw, 1, 6):
                 return {'op': 'setup', 'D': gen_D(draw, m, 0, 2)}       # excluded (D5), counted
             op = {'op': 'wipe'}
             f = gen_fail(draw, m, 'wipe') if draw(st.booleans()) else None
@@ -1026,9 +1032,11 @@ def _campaign_shard(shard: T.Tuple[int, int, str], ev: Evidence, fails: T.List[F
 
     def check(case: dict) -> T.Optional[Failure]:
         counter[0] += 1
+        if counter[0] > n + SHRINK_RUNS:
+            return None       # shrink budget of this shard is spent: the shrinker sees "no failure" and stops
         out = run_history(case, _inproc_runner, os.path.join(root, 'c'))
         cls = _classes(out)
-        ev.case(case, nontrivial=out.nontrivial, cls=cls, sample=[short_op(o) for o in case['ops']])
+        ev.case(case, nontrivial=out.nontrivial, cls=cls, sample=list(out.trace))
         for f in sorted(out.flags):
             ev.event('op:' + f)
         for w in out.excluded:
@@ -1055,7 +1063,7 @@ def _campaign_shard(shard: T.Tuple[int, int, str], ev: Evidence, fails: T.List[F
 
     got: T.List[Failure] = []
     try:
-        campaign(_strategies(), check, n, seed, got)
+        campaign(_strategies(), check, n, seed, got, max_buckets=3)
         # the shrunk representative was judged in-process: confirm it once more in fresh subprocesses
         for f in got:
             out2 = run_history(f.case, _sub_runner, os.path.join(root, 's'))
@@ -1069,34 +1077,73 @@ def _campaign_shard(shard: T.Tuple[int, int, str], ev: Evidence, fails: T.List[F
         shutil.rmtree(root, ignore_errors=True)
 
 
-def _probe_shard(shard: T.Tuple[str, dict, str], ev: Evidence, fails: T.List[Failure]) -> None:
-    name, case, scratch = shard
+def _probe_worker(arg: T.Tuple[str, dict, str]) -> T.Optional[dict]:
+    name, case, scratch = arg
     root = os.path.join(scratch, 'probe-' + name)
     try:
         out = run_history(case, _sub_runner, root)
     finally:
         shutil.rmtree(root, ignore_errors=True)
-    ev.case(case, nontrivial=True, cls='probe:' + name, sample=[short_op(o) for o in case['ops']])
-    if out.failure is not None:
-        fails.append(out.failure)
-        ev.event('probe-still-failing:' + name)
+    return out.failure.to_json() if out.failure is not None else None
+
+
+_REPLAYED: T.Dict[bytes, T.Optional[Failure]] = {}
+
+
+def _run_fixed_cases(ctx: Ctx, cases: T.List[T.Tuple[str, dict]]) -> None:
+    """Fixed (probe / regression) histories: one fresh subprocess per command, cases in parallel, each case once per run."""
+    import multiprocessing
+    from harness.core import NCPU
+    todo = []
+    seen = set()
+    for name, case in cases:
+        k = fp(case)
+        if k not in _REPLAYED and k not in seen:
+            seen.add(k)
+            todo.append((name, case))
+    if not todo:
+        return
+    args = [(f'{i}-{name}', case, ctx.scratch) for i, (name, case) in enumerate(todo)]
+    if len(args) == 1:
+        results = [_probe_worker(args[0])]
     else:
-        ev.event('probe-holds-now:' + name)
+        with multiprocessing.get_context('fork').Pool(min(NCPU, len(args))) as pool:
+            results = pool.map(_probe_worker, args, chunksize=1)
+    for (name, case), res in zip(todo, results):
+        f = Failure.from_json(res) if res is not None else None
+        _REPLAYED[fp(case)] = f
+        ctx.ev.case(case, nontrivial=True, cls='probe:' + name, sample=[short_op(o) for o in case['ops']])
+        ctx.ev.event(('probe-still-failing:' if f is not None else 'probe-holds-now:') + name)
+
+
+def _regress_cases() -> T.List[T.Tuple[str, dict]]:
+    import glob
+    from harness.core import VERIF
+    out = []
+    for path in sorted(glob.glob(os.path.join(VERIF, 'replays', 'regress', 'C08-*.json'))):
+        try:
+            with open(path, encoding='utf-8') as fh:
+                out.append((os.path.basename(path)[4:-5], json.load(fh)['case']))
+        except (OSError, ValueError, KeyError):
+            pass
+    return out
 
 
 def run(ctx: Ctx) -> None:
-    scratch = ctx.scratch
-    pmap(ctx, _probe_shard, [(name, case, scratch) for name, case in PROBES])
+    _run_fixed_cases(ctx, PROBES)
+    for _, case in PROBES:
+        ctx.fail(_REPLAYED.get(fp(case)))
     total = ctx.n(640, 16000)
     nshards = 16
     per = max(1, total // nshards)
-    pmap(ctx, _campaign_shard, [(s, per, scratch) for s in shard_seeds(ctx, nshards)])
+    pmap(ctx, _campaign_shard, [(s, per, ctx.scratch) for s in shard_seeds(ctx, nshards)])
 
 
 def replay(ctx: Ctx, case: T.Any, doc: dict) -> T.Optional[Failure]:
-    root = os.path.join(ctx.scratch, 'replay-' + fp(case).hex())
-    try:
-        out = run_history(case, _sub_runner, root)
-    finally:
-        shutil.rmtree(root, ignore_errors=True)
-    return out.failure
+    if fp(case) not in _REPLAYED:
+        # in a normal run the first call also runs every other saved regression case (in parallel), later calls
+        # hit the cache; `./vcheck C08 --replay FILE` runs just that file
+        import sys
+        others = [] if '--replay' in sys.argv else _regress_cases()
+        _run_fixed_cases(ctx, [(doc.get('signature', 'replay')[:40].replace('/', '_'), case)] + others)
+    return _REPLAYED[fp(case)]
